@@ -10,9 +10,27 @@ From ONL Require Import Kernel.Model Kernel.Keys Kernel.Deliver.
 Import ListNotations.
 Local Open Scope nat_scope.
 
+Definition is_proc_kind (k : ekind) : bool := match k with KProcess _ => true | _ => false end.
+
+(* the Process event of a process record exists and is a Process event *)
+Definition pev_ok (s : state) (pr : procrec) : Prop :=
+  exists pe, get_event (pev pr) s = Some pe /\ is_proc_kind (kind pe) = true.
+
 Definition uinv (s : state) : Prop :=
   (forall x, In x (agenda s) -> exists ev, get_event (e_ev x) s = Some ev /\ out ev <> None) /\
-  (forall p pr, get_proc p s = Some pr -> pev pr < length (events s)).
+  (forall p pr, get_proc p s = Some pr -> pev_ok s pr).
+
+Lemma ksame_proc k k' : ksame k k' -> is_proc_kind k = true -> is_proc_kind k' = true.
+Proof. destruct k; cbn; try discriminate. intros <- _. reflexivity. Qed.
+
+Lemma pev_ok_grows s s' pr : grows s s' -> pev_ok s pr -> pev_ok s' pr.
+Proof.
+  intros G (pe & H & K). destruct (G _ _ H) as (pe' & H' & Le). exists pe'. split; [exact H'|].
+  eapply ksame_proc; [apply (le_kind _ _ Le)|exact K].
+Qed.
+
+Lemma pev_ok_lt s pr : pev_ok s pr -> pev pr < length (events s).
+Proof. intros (pe & H & _). eapply get_event_lt, H. Qed.
 
 Lemma grows_lt s s' x : grows s s' -> x < length (events s) -> x < length (events s').
 Proof.
@@ -29,7 +47,7 @@ Proof.
   intros A P G [U1 U2]. split.
   - intros x Hx. rewrite A in Hx. destruct (U1 x Hx) as (ev & H & O). destruct (G _ _ H) as (ev' & H' & Le).
     exists ev'. split; [exact H'|apply (le_out _ _ Le), O].
-  - intros p pr H. unfold get_proc in H. rewrite P in H. eapply grows_lt; [exact G|]. exact (U2 p pr H).
+  - intros p pr H. unfold get_proc in H. rewrite P in H. eapply pev_ok_grows; [exact G|]. exact (U2 p pr H).
 Qed.
 
 Lemma uinv_upd_event e f s : (forall ev, get_event e s = Some ev -> ev_le ev (f ev)) -> uinv s -> uinv (upd_event e f s).
@@ -145,7 +163,9 @@ Proof.
     destruct (Nat.lt_ge_cases p (length (procs s))) as [L|L].
     + rewrite nth_error_app1 in H by exact L. apply (B p pr0). exact H.
     + rewrite nth_error_app2 in H by exact L. cbn in H. destruct (p - length (procs s)) as [|k]; cbn in H.
-      * injection H as <-. cbn. rewrite !app_length. cbn. lia.
+      * injection H as <-. exists EV1. split; [|reflexivity]. cbn [pev]. unfold get_event. cbn.
+        rewrite nth_error_app1 by (rewrite app_length; cbn; lia). rewrite nth_error_app2 by lia.
+        now rewrite Nat.sub_diag.
       * destruct k; discriminate.
 Qed.
 
@@ -200,16 +220,18 @@ Qed.
 Lemma uinv_upd_proc p f s : (forall pr, pev (f pr) = pev pr) -> uinv s -> uinv (upd_proc p f s).
 Proof.
   intros Hf [A B]. split; [exact A|].
-  intros q pr H. rewrite get_proc_upd in H. change (length (events (upd_proc p f s))) with (length (events s)).
+  intros q pr H. rewrite get_proc_upd in H.
+  assert (X : forall pr1 pr2, pev pr1 = pev pr2 -> pev_ok s pr2 -> pev_ok (upd_proc p f s) pr1)
+    by (intros pr1 pr2 E (pe & G & K); exists pe; rewrite E; auto).
   destruct (Nat.eqb q p).
-  - destruct (get_proc q s) as [pr0|] eqn:H0; [|discriminate]. cbn in H. injection H as <-. rewrite Hf. exact (B q pr0 H0).
-  - exact (B q pr H).
+  - destruct (get_proc q s) as [pr0|] eqn:H0; [|discriminate]. cbn in H. injection H as <-. apply (X _ pr0 (Hf pr0)). exact (B q pr0 H0).
+  - apply (X pr pr eq_refl). exact (B q pr H).
 Qed.
 
-Lemma uinv_put_proc p prx s : pev prx < length (events s) -> uinv s -> uinv (put_proc p prx s).
+Lemma uinv_put_proc p prx s : pev_ok s prx -> uinv s -> uinv (put_proc p prx s).
 Proof.
   intros L [A B]. split; [exact A|].
-  intros q pr H. unfold put_proc in H. rewrite get_proc_upd in H. change (length (events (put_proc p prx s))) with (length (events s)).
+  intros q pr H. unfold put_proc in H. rewrite get_proc_upd in H.
   destruct (Nat.eqb q p).
   - destruct (get_proc q s) as [pr0|] eqn:H0; [|discriminate]. cbn in H. injection H as <-. exact L.
   - exact (B q pr H).
@@ -218,9 +240,9 @@ Qed.
 Lemma uinv_set_active a s : uinv s -> uinv (set_active a s).
 Proof. apply uinv_frame; try reflexivity. apply grows_same_events. reflexivity. Qed.
 
-Lemma uinv_proc_finish p pr o s : pev pr < length (events s) -> uinv s -> uinv (proc_finish p pr o s).
+Lemma uinv_proc_finish p pr o s : pev_ok s pr -> uinv s -> uinv (proc_finish p pr o s).
 Proof.
-  intros L U. unfold proc_finish. apply uinv_set_active. apply uinv_upd_proc; [reflexivity|]. apply uinv_trigger; assumption.
+  intros L0 U. pose proof (pev_ok_lt _ _ L0) as L. unfold proc_finish. apply uinv_set_active. apply uinv_upd_proc; [reflexivity|]. apply uinv_trigger; assumption.
 Qed.
 
 Lemma uinv_proc_wait p e s : uinv s -> uinv (proc_wait p e s).
@@ -245,8 +267,8 @@ Proof.
   pose proof (uinv_run_frag codes (resume (pcode pr) (pst pr) o) _ (uinv_feed_state e o s U)) as U2.
   pose proof (grows_run_frag codes (resume (pcode pr) (pst pr) o) (feed_state e o s)) as G2.
   destruct (run_frag codes (resume (pcode pr) (pst pr) o) (feed_state e o s)) as [s2 r]. cbn [fst] in *.
-  assert (L2 : pev pr < length (events s2)).
-  { eapply grows_lt; [exact G2|]. eapply grows_lt; [apply grows_feed_state|exact L]. }
+  assert (L2 : pev_ok s2 pr).
+  { eapply pev_ok_grows; [exact G2|]. eapply pev_ok_grows; [apply grows_feed_state|exact L]. }
   destruct r as [v a|v|x].
   - assert (U3 : uinv (put_proc p (proc_set_st pr a) s2)) by (apply uinv_put_proc; [exact L2|exact U2]).
     destruct v; try exact U3.
@@ -290,14 +312,13 @@ Qed.
 
 Lemma uinv_run_callbacks fuel codes e l : forall s, uinv s -> uinv (fst (run_callbacks fuel codes e l s)).
 Proof.
-  induction l as [|c t IH]; intros s U; cbn [run_callbacks fst]; [exact U|].
-  pose proof (uinv_run_cb fuel codes e c s U) as X. destruct (run_cb fuel codes e c s) as [s1 r]. cbn [fst] in X.
-  destruct r; try exact X. apply IH, X.
+  intros s U. apply (run_callbacks_rel fuel codes e uinv (fun _ _ => True)); auto.
+  intros c s0 U0. split; [exact I|apply uinv_run_cb, U0].
 Qed.
 
 Lemma uinv_cb_chain fuel codes e l s s' : cb_chain fuel codes e l s s' -> uinv s -> uinv s'.
 Proof.
-  induction 1 as [s|c t s s1 s' R _ IH]; [auto|]. intros U. apply IH.
+  induction 1 as [s|c t s s1 r s' R _ _ IH]; [auto|]. intros U. apply IH.
   pose proof (uinv_run_cb fuel codes e c s U) as X. now rewrite R in X.
 Qed.
 
@@ -355,9 +376,10 @@ Proof. split; [intros x []|]. intros p pr H. destruct p; discriminate. Qed.
 
 Lemma uinv_later codes s s' : later codes s s' -> uinv s -> uinv s'.
 Proof.
-  induction 1 as [s|s s' A f _ IH|s s' fuel _ IH|s s' fuel u _ IH]; intros U.
+  induction 1 as [s|s s' A f _ IH|s s' u s1 _ IH P|s s' fuel _ IH|s s' fuel u _ IH]; intros U.
   - exact U.
   - apply uinv_run_frag, IH, U.
+  - eapply uinv_run_prelude; [exact P|]. apply IH, U.
   - apply uinv_step, IH, U.
   - apply uinv_run, IH, U.
 Qed.
